@@ -303,6 +303,28 @@ SORTED_RESULT = {'list_all_node_ids', 'get_all_nodes_by_class', 'get_all_nodes_b
                  'find_matching_nodes'}
 
 
+# Callers reuse argument dictionaries (`policy = {...}; for n in common: g.merge_nodes(..., merge_properties=policy)`), so
+# within one history equal dict arguments are passed as ONE object per store; a call that edits its argument therefore
+# shows, as it would for such a caller, in what later calls do.  ARG_EDITS only counts (editing an argument is not in itself
+# against any statement).
+_INTERN = {}
+ARG_EDITS = [0]
+
+
+def reset_args():
+    _INTERN.clear()
+
+
+def _arg(graphs, d):
+    import json as _json
+    key = (id(graphs), _json.dumps(d, sort_keys=True, default=repr))
+    if key not in _INTERN:
+        _INTERN[key] = dict(d)
+    elif _INTERN[key] != d:
+        ARG_EDITS[0] += 1
+    return _INTERN[key]
+
+
 def execute(graphs, op):
     """graphs: {gid: property graph object}.  Returns ('ok', value) | ('exc', class name, message)."""
     o = dict(op)
@@ -351,7 +373,7 @@ def execute(graphs, op):
             r = g.delete_graph()
         elif name == 'merge_nodes':
             r = g.merge_nodes(node_id=o['nid'], other_graph=graphs[o['other']],
-                              merge_properties=dict(o['policy']) if o['policy'] else None)
+                              merge_properties=_arg(graphs, o['policy']) if o['policy'] else None)
         else:
             raise AssertionError(name)
     except Exception as e:
